@@ -512,7 +512,12 @@ def _option_closure_method(body, method, nargs, build):
         if not cm or re.search(r"\breturn\b|\?|\bbreak\b|\bcontinue\b", cm.group(2)):
             pos = m.end()
             continue
-        new = build(" ".join(m.group(1).split()), [a.strip() for a in args[:-1]], cm.group(1).strip(), cm.group(2).strip())
+        pat_, expr_ = cm.group(1).strip(), cm.group(2).strip()
+        if pat_.startswith("&") and not pat_.startswith("&mut"):
+            # a reference pattern `&P` binds by copying out of the reference: `vx_r` bound, then `let P = *vx_r;` (needs Copy, as the
+            # original does; Verus has no reference patterns)
+            pat_, expr_ = "vx_r", "{ let %s = *vx_r; %s }" % (pat_[1:].strip(), expr_)
+        new = build(" ".join(m.group(1).split()), [a.strip() for a in args[:-1]], pat_, expr_)
         old = body[m.start():close + 1]
         body = body[:m.start()] + _pad(old, new) + body[close + 1:]
         pos = m.start() + len(new)
